@@ -142,6 +142,26 @@ CHECKS.update({
             "DESIGN.md §2 C08"),
 })
 
+def _add(pid, extra):
+    cat, tech, text, note, ref = CHECKS[pid]
+    CHECKS[pid] = (cat, tech, text + " " + extra, note, ref)
+
+
+_add("C01", "ignore_exc=True is one of the configurations.")
+_add("C02", "A sequence mode runs 8-30 calls on ONE client (small token pool, stats/cache_memlimit arguments reusing key tokens in between, keys that begin with the prefix or sit at the prefix boundary, Client(ignore_exc=True)), and multi-key calls of 70/130 keys carry an illegal key at positions 0/63/64/65/last.")
+_add("C03", "Long reply lines (240-byte keys, long error/version lines) and token-reader replies whose length or last piece is a multiple of the 4096-byte receive size are part of the corpus.")
+_add("C07", "A second variant runs with the items present: the result under a fault must be the miss result or the complete undisturbed result (several servers: whole servers missing), never part of it; undeserialisable items also come in sizes that span several recv() calls.")
+_add("C08", "Programs in which a thread goes on after quit()/a failed call (double-release windows) are explored exhaustively at 2 preemptions even in quick.")
+_add("C09", "A reply line that made the call raise counts as a failure on that connection. A pool-level section checks out several connections at once, releases them at different times and demands after every checkout that nothing idle longer than the timeout is left in the pool and nothing fresher was retired. A race section runs C08's deterministic scheduler on slow-call/checkout programs: get() must never retire an object whose release began <= idle_timeout ago.")
+_add("C10", "Also: interrupts arriving in sendall() after the bytes went out, depth-2 plans (an ordinary failure, then an interrupt in a socket call of the cleanup - an interrupt on entry to close() leaves the descriptor open), operations with an illegal key on a warm pooled connection, and pools whose idle connection expires at the next checkout.")
+_add("C11", "Hashers seeded through RendezvousHash(nodes=<unsorted list>) go through the same histories; keys outside Latin-1 are compared with the pinned release's values (code points mod 256).")
+_add("C13", "Also checked in every state: no key-addressed command is issued twice in one call; what set_many (plain keys and (server_key, key) pairs) does not report as failed is found by an immediately following get unless that very call took the server out of rotation; targeted sequences keep one server down across the retry / give-up / dead phases for every configuration.")
+_add("C14", "For strings outside Latin-1 the value must additionally stay what the pinned release computes (reference on code points mod 256: release stability of placement).")
+_add("C16", "One-shot iterables, repeated keys, the item protocol (incl. falsy stored values) and timeout-only / connect_timeout-only configurations are in the grid.")
+_add("C18", "Hits whose value is falsy but not None are a third cache state (3^n assignments).")
+_add("C19", "Which node fails before a reconfiguration varies, a reconfiguration refused by the endpoint (ERROR) may precede the successful one, and the ERROR reply is also delivered split.")
+_add("C20", "Further entry points: Client(ignore_exc=True).get, Client(encoding='utf8').check_key and a HashClient with no server left in rotation; keys that begin with the prefix; the repository's own unit suite is run once with the C14/C15/C20 contracts switched on (a contract firing there is reported).")
+
 NOT_YET = "check not built yet in this round (runtime-monitoring design in DESIGN.md §2); will be claimed once its monitor exists"
 
 manifest = {
